@@ -70,6 +70,9 @@ pub fn run(outdir: &str, seed: u64, thorough: bool) -> serde_json::Value {
         "SELECT * FROM (SELECT t.id AS k1, t.age AS k2, t.city AS k3, t.score AS a FROM users AS t) AS x NATURAL LEFT JOIN (SELECT u.id AS k1, u.age AS k2, u.city AS k3, u.income AS b FROM users AS u) AS y",
         "SELECT * FROM (SELECT t.id AS k1, t.age AS k2, t.city AS a FROM users AS t) AS x JOIN (SELECT u.id AS k1, u.age AS k2, u.income AS b FROM users AS u) AS y USING (k1, k2)",
         "SELECT * FROM cities NATURAL JOIN users",
+        // functions without argument whose value is the clock or a constant: their type may not depend on when a thread started
+        "SELECT x.a AS a, x.ts AS ts FROM (SELECT t.age AS a, CURRENT_TIMESTAMP AS ts FROM users AS t WHERE t.age > 20) AS x ORDER BY x.a LIMIT 10",
+        "SELECT t.age AS a, CURRENT_DATE AS d, CURRENT_TIME AS c FROM users AS t", "SELECT t.age * PI() AS a FROM users AS t",
         // set operations whose operands name their columns differently (the output names are generated)
         "SELECT t.age AS a FROM users AS t UNION ALL SELECT o.user_id AS b FROM orders AS o", "SELECT t.age AS a, t.id AS i FROM users AS t UNION SELECT o.user_id AS b, o.id AS j FROM orders AS o",
         "SELECT t.age AS a FROM users AS t EXCEPT SELECT o.user_id AS b FROM orders AS o", "SELECT x.a AS c FROM (SELECT t.age AS a FROM users AS t INTERSECT SELECT o.user_id AS b FROM orders AS o) AS x",
